@@ -588,6 +588,62 @@ func suiteArchiveOps(c *Ctx) {
 		}
 		c.Stat(fmt.Sprintf("rand final-size-bucket=%d", bucket(len(s.a.Archive()))))
 	}
+	// 3. wide fronts: 66 … 200 mutually non-dominated members (a staircase in two of d dimensions), then candidates that
+	// dominate exactly one member each — at every position of the front, the ones past 64 and 128 included — and
+	// candidates dominated by exactly one member, duplicates of members, and re-offers
+	wide := c.N(4, 24)
+	for n := 0; n < wide; n++ {
+		if n%c.Shards != c.Shard {
+			continue
+		}
+		d := 2 + r.Intn(3)
+		size := []int{66, 70, 100, 129, 130, 200}[r.Intn(6)]
+		nbits := []int{13, 64, 65, 130, 300}[r.Intn(5)]
+		s := newArchSession(c, "wide")
+		bitsOf := func(id int) []bool {
+			bs := make([]bool, nbits)
+			for j := range bs {
+				bs[j] = (id*2654435761+j*40503)>>7&1 == 1
+			}
+			bs[id%nbits] = !bs[id%nbits]
+			return bs
+		}
+		stair := func(i int, dx, dy float64) cand {
+			v := make([]float64, d)
+			v[0], v[1] = float64(4*i)+dx, float64(4*(size-i))+dy
+			for j := 2; j < d; j++ {
+				v[j] = 7
+			}
+			return cand{vec: v, bits: bitsOf(i*8 + int(dx+2)*3 + int(dy+2))}
+		}
+		order := r.Perm(size)
+		for _, i := range order {
+			s.attempt(stair(i, 0, 0))
+		}
+		for k := 0; k < size/2; k++ {
+			i := r.Intn(size)
+			if k%3 == 0 {
+				i = size - 1 - r.Intn(6) // the far end of the front
+			}
+			switch r.Intn(4) {
+			case 0: // dominates member i only
+				s.attempt(stair(i, -1, -1))
+			case 1: // dominated by member i only
+				kd := stair(i, 1, 1)
+				if s.attempt(kd) == "RD" && r.Bool() {
+					s.force(kd, true)
+				}
+			case 2: // the member itself again (same action set)
+				s.attempt(stair(i, 0, 0))
+			default: // equal vector, other action set
+				kk := stair(i, 0, 0)
+				kk.bits = bitsOf(i*8 + 7)
+				s.attempt(kk)
+			}
+		}
+		s.selfCheck()
+		c.Stat(fmt.Sprintf("wide front size-bucket=%d", bucket(len(s.a.Archive()))))
+	}
 }
 
 func bucket(n int) int {
